@@ -17,7 +17,8 @@ RULE = ("(insert, metamorphic, all 70 metrics) dataset X+ = X plus one extra loc
         "written as text with each missing token and as NetCDF with fill/-999/NaN/1e36 reads back with NaN exactly at "
         "the missing cells and gives identical csv scores. (readers) util.clean and Text._clean map every listed "
         "encoding to NaN and every other value to itself. (quotient) with -C and zeros planted in the climatology every score is "
-        "bit-identical to the score of the dataset in which the climatology is missing at those cells. Non-trivial: the inserted slice has at least one cell with "
+        "bit-identical to the score of the dataset in which the climatology is missing at those cells. (ensemble-members) the "
+        "event probability derived from an ensemble with partially missing members is the fraction among the members present. Non-trivial: the inserted slice has at least one cell with "
         "ordinary numbers in the non-victim inputs and X has a valid case left; distinct by hash of (X, insertion).")
 ASSUMPTIONS = [
     "scores are computed the way -type csv does (verif.output.Standard._get_x_y) on in-memory inputs for the insert oracle",
@@ -298,6 +299,21 @@ def _isnum(s):
 
 
 # ------------------------------------------------------------------------------------------
+def members_strategy(tier):
+    from . import c07
+    return c07.ens_strategy(tier)
+
+
+def check_members(case, ctx):
+    """A missing ensemble member is dropped: the event probability derived from the ensemble is the fraction of the
+    members that are present (not of all members), and missing when no member is present."""
+    from . import c07
+    if "bin_type" not in case:
+        return check_insert(case, ctx)
+    c07.check_ens(case, ctx, key="C04/ensemble-members")
+
+
+# ------------------------------------------------------------------------------------------
 QUOT_AXES = ["no", "time", "leadtime", "location", "month"]
 
 
@@ -439,5 +455,6 @@ def campaigns(tier):
         Enum("readers", reader_items, check_reader, "listed encodings and neighbouring ordinary values"),
         Hyp("insert", insert_strategy, check_insert, quick=480, thorough=4000, budget_quick=60, budget_thorough=1500),
         Hyp("encode", encode_strategy, check_encode, quick=160, thorough=4000, budget_quick=60, budget_thorough=1200),
+        Hyp("ensemble-members", members_strategy, check_members, quick=480, thorough=8000, budget_quick=30, budget_thorough=600),
         Hyp("quotient", quotient_strategy, check_quotient, quick=240, thorough=3000, budget_quick=60, budget_thorough=1200),
     ]
